@@ -145,12 +145,13 @@ func (w *cluWorld) runConcOp(ctx context.Context, op cluOp, idx int) {
 	if op.Kind == "replace" {
 		pre = w.readState()
 	}
+	start := w.sim.Stats.Steps
 	out := w.execOp(ctx, op, nil, nil, pre)
 	if out.skipped {
 		return
 	}
 	w.probe("op_" + op.Kind)
-	rec := concRec{Kind: op.Kind, Task: op.Task, OK: !out.failed}
+	rec := concRec{Kind: op.Kind, Task: op.Task, OK: !out.failed, Start: start, End: w.sim.Stats.Steps}
 	switch op.Kind {
 	case "add_node":
 		rec.Node, rec.Pod = op.NewName, w.podName(op.Pod)
